@@ -327,7 +327,7 @@ func (c *Collection) WriteCas(key string, exp Exp, cas CAS, val any, opt sgbucke
 		if opt&(sgbucket.Append|sgbucket.AddOnly) == 0 {
 			// Writing a nil value deletes the document (this is how Update deletes):
 			// make a proper tombstone, exactly as Remove does.
-			return c.remove(key, &cas)
+			return c.remove(key, &cas, nil)
 		}
 	}
 
@@ -415,7 +415,7 @@ func (c *Collection) WriteCas(key string, exp Exp, cas CAS, val any, opt sgbucke
 // Remove creates a document tombstone. It removes the document's value and user xattrs.
 func (c *Collection) Remove(key string, cas CAS) (casOut CAS, err error) {
 	traceEnter("Remove", "%q, 0x%x", key, cas)
-	casOut, err = c.remove(key, &cas)
+	casOut, err = c.remove(key, &cas, nil)
 	traceExit("Remove", err, "0x%x", casOut)
 	return
 }
@@ -423,25 +423,33 @@ func (c *Collection) Remove(key string, cas CAS) (casOut CAS, err error) {
 // Delete creates a document tombstone. It removes the document's value and user xattrs. Equivalent to Remove without a CAS check.
 func (c *Collection) Delete(key string) (err error) {
 	traceEnter("Delete", "%q", key)
-	_, err = c.remove(key, nil)
+	_, err = c.remove(key, nil, nil)
 	traceExit("Delete", err, "ok")
 	return err
 }
 
+// errNotExpired is returned by remove when asked to remove a document only if it has expired, and it hasn't.
+var errNotExpired = errors.New("document is not expired")
+
 // remove creates a document tombstone. It removes the document's value and user xattrs. checkClosed will allow removing the document even the bucket instance is "closed".
-func (c *Collection) remove(key string, ifCas *CAS) (casOut CAS, err error) {
+// If ifExpiredBy is non-nil the document is only removed if its expiry is set and not later than that time
+// (checked inside the transaction: the expiry may have been changed since the caller looked).
+func (c *Collection) remove(key string, ifCas *CAS, ifExpiredBy *Exp) (casOut CAS, err error) {
 	err = c.withNewCas(func(txn *sql.Tx, newCas CAS) (e *event, err error) {
 		// Get the doc, possibly checking cas:
 		var cas CAS
 		var rawXattrs []byte
 		var revSeqNo uint64
+		var curExp Exp
 		row := txn.QueryRow(
-			`SELECT cas, xattrs, revSeqNo FROM documents WHERE collection=?1 AND key=?2`,
+			`SELECT cas, xattrs, revSeqNo, exp FROM documents WHERE collection=?1 AND key=?2`,
 			c.id, key)
-		if err = scan(row, &cas, &rawXattrs, &revSeqNo); err != nil {
+		if err = scan(row, &cas, &rawXattrs, &revSeqNo, &curExp); err != nil {
 			return nil, remapKeyError(err, key)
 		} else if ifCas != nil && cas != *ifCas {
 			return nil, sgbucket.CasMismatchErr{Expected: *ifCas, Actual: cas}
+		} else if ifExpiredBy != nil && (curExp == 0 || curExp > *ifExpiredBy) {
+			return nil, errNotExpired
 		}
 		revSeqNo++
 
@@ -593,7 +601,8 @@ func (c *Collection) expireDocuments() (count int64, err error) {
 	// will get its own db connection, and if the db only supports one connection (i.e. in-memory)
 	// having both queries active would deadlock.)
 	for _, key := range keys {
-		if c.Delete(key) == nil {
+		// (only if it is still expired: its expiry may have been lengthened or cleared meanwhile)
+		if _, err := c.remove(key, nil, &exp); err == nil {
 			count++
 		}
 	}
